@@ -27,12 +27,11 @@ def gen_case(ctx, i):
     rng = ctx.rng
     content = C.gen_content(rng)
     case = {"content": content, "queries": cc.standard_queries(rng, content), "decl_seed": rng.randrange(1 << 30)}
-    plain = [k for k, v in content["pars"] if "v" in v]
-    if plain and rng.random() < 0.5:
-        # ask, change plain parameter values through the API, ask again
-        ks = rng.sample(plain, rng.randint(1, len(plain)))
-        case["edit"] = {"how": rng.choice(["update_parameter", "update_parameters", "scale_parameter"]),
-                        "pars": [[k, str(rng.choice([1, 2, 4, 5]))] for k in ks]}
+    if rng.random() < 0.5:
+        # ask, edit values / function bodies / stoichiometry through the API, ask again
+        case["edit"] = cc.gen_edit(rng, content)
+        if not case["edit"]:
+            del case["edit"]
     return case
 
 
@@ -50,7 +49,7 @@ def judge_case(ctx, case, R, M, S):
         Ri, Si, Mi = R[i], S[i], None if M is None else M[i]
         if i >= nq:  # a sub-case replays both rounds; compare both
             Ri, Si, Mi = [R[i - nq], R[i]], [S[i - nq], S[i]], None if M is None else [M[i - nq], M[i]]
-        ctx.judge(sub, Ri, Si, Mi, what=f"query {q[0]}" + (" after parameter edit" if i >= nq else ""))
+        ctx.judge(sub, Ri, Si, Mi, what=f"query {q[0]}" + (" after edits" if i >= nq else ""))
     # every way of asking returns the same numbers (rhs vs call; fluxes vs args)
     by = {}
     for i, q in enumerate(case["queries"]):
